@@ -245,14 +245,20 @@ macro_rules! impl_io_uring_read {
                                     // buffer and its entry in the wait table: cancel it and take
                                     // its completion, which is -ECANCELED or a result that was
                                     // faster than the cancel request
-                                    let parked = $crate::net::EventLoops::cancel_io_uring(co.id()).is_ok()
-                                        && co.syscall((), syscall, SyscallState::Suspend(u64::MAX)).is_ok();
-                                    if !parked {
-                                        $crate::syscall::set_errno(libc::ETIMEDOUT);
-                                        return -1;
-                                    }
-                                    if let Some(suspender) = SchedulableSuspender::current() {
-                                        suspender.suspend();
+                                    // (the completion may have been reaped between the scheduler
+                                    // marking the timeout and this coroutine running again: then
+                                    // there is nothing left to cancel or to wait for)
+                                    let arrived = arc.0.lock().is_ok_and(|result| result.is_some());
+                                    if !arrived {
+                                        let parked = $crate::net::EventLoops::cancel_io_uring(co.id()).is_ok()
+                                            && co.syscall((), syscall, SyscallState::Suspend(u64::MAX)).is_ok();
+                                        if !parked {
+                                            $crate::syscall::set_errno(libc::ETIMEDOUT);
+                                            return -1;
+                                        }
+                                        if let Some(suspender) = SchedulableSuspender::current() {
+                                            suspender.suspend();
+                                        }
                                     }
                                     if let CoroutineState::Syscall((), syscall, SyscallState::Callback) = co.state() {
                                         if co.syscall((), syscall, SyscallState::Executing).is_err() {
@@ -352,14 +358,20 @@ macro_rules! impl_io_uring_write {
                                     // buffer and its entry in the wait table: cancel it and take
                                     // its completion, which is -ECANCELED or a result that was
                                     // faster than the cancel request
-                                    let parked = $crate::net::EventLoops::cancel_io_uring(co.id()).is_ok()
-                                        && co.syscall((), syscall, SyscallState::Suspend(u64::MAX)).is_ok();
-                                    if !parked {
-                                        $crate::syscall::set_errno(libc::ETIMEDOUT);
-                                        return -1;
-                                    }
-                                    if let Some(suspender) = SchedulableSuspender::current() {
-                                        suspender.suspend();
+                                    // (the completion may have been reaped between the scheduler
+                                    // marking the timeout and this coroutine running again: then
+                                    // there is nothing left to cancel or to wait for)
+                                    let arrived = arc.0.lock().is_ok_and(|result| result.is_some());
+                                    if !arrived {
+                                        let parked = $crate::net::EventLoops::cancel_io_uring(co.id()).is_ok()
+                                            && co.syscall((), syscall, SyscallState::Suspend(u64::MAX)).is_ok();
+                                        if !parked {
+                                            $crate::syscall::set_errno(libc::ETIMEDOUT);
+                                            return -1;
+                                        }
+                                        if let Some(suspender) = SchedulableSuspender::current() {
+                                            suspender.suspend();
+                                        }
                                     }
                                     if let CoroutineState::Syscall((), syscall, SyscallState::Callback) = co.state() {
                                         if co.syscall((), syscall, SyscallState::Executing).is_err() {
